@@ -34,6 +34,12 @@ def generate(tier, seed):
             src.append(fn(n, "    range_%s_agrees(mk_range(%d));" % (law, sv)))
             hs.append(Harness(n, "ElixirRange %s agrees with the 128-bit reference; step=%s, first/last%s all i64" % (
                 law, "symbolic" if sv == 0 else sv, "/value" if law == "contains" else ""), unwind=5, cap_s=300))
+    src.append(fn("c20_proplist_single_int_entry", "    proplist_single_int_entry();"))
+    hs.append(Harness("c20_proplist_single_int_entry", "[{K,V}] with symbolic integer K,V -> proplist_to_map -> one entry K=>V -> map_to_proplist -> [{K,V}]",
+                      unwind=6, cap_s=600, typed_heap=True, cuts=[r"InternalFun as std::clone::Clone", r"ExternalReference as std::clone::Clone",
+                                                                  r"ExternalPid as std::clone::Clone", r"ExternalPort as std::clone::Clone",
+                                                                  r"BigInt as std::clone::Clone", r"Bytes as std::clone::Clone"],
+                      recursion=[(r"OwnedTerm as std::(clone::Clone>::clone|cmp::Ord>::cmp)", 1)]))
     src.append(fn("c20_date_roundtrip", "    date_roundtrip();"))
     hs.append(Harness("c20_date_roundtrip", "ElixirDate -> term -> ElixirDate for all i32 year, u8 month/day", unwind=4,
                       unwindset=[(r"Atom::new", 16), (r"^memcmp$", 24)], cap_s=600,
